@@ -228,6 +228,21 @@ var mutants = []Mutant{
 	{"C09", "date-lost-to-strip", "internal/responsestorerer.go", [][2]string{{"\tFixDateHeader(resp.Header, respTime)\n", ""}}, "C09.17", "D84"},
 	{"C16", "late-304-merged", "roundtripper.go", [][2]string{{"if resp.StatusCode == http.StatusNotModified && !sentValidatorsOf(req, stored.Data.Header) {", "if false {"}}, "C16.15", "D85"},
 	{"C08", "late-304-compares-nothing", "helpers.go", [][2]string{{"\treturn req.Header.Get(\"If-None-Match\") == storedHdr.Get(\"ETag\") &&\n\t\treq.Header.Get(\"If-Modified-Since\") == storedHdr.Get(\"Last-Modified\")", "\treturn req != nil && storedHdr != nil"}}, "C08.13", "D85: the comparison replaced by a nil test"},
+	{"C01", "date-decoder-length-gate", "internal/ccdirectives.go", [][2]string{{"func (r RawTime) Value() (t time.Time, valid bool) {\n\tif r == \"\" {", "func (r RawTime) Value() (t time.Time, valid bool) {\n\tif len(r) < len(http.TimeFormat) {"}}, "C01.25", "wave 8"},
+	{"C01", "empty-argument-dropped", "internal/ccdirectives.go", [][2]string{{"\t\t\t\tvalue = textproto.TrimString(value)\n", "\t\t\t\tvalue = textproto.TrimString(value)\n\t\t\t\tif value == \"\" {\n\t\t\t\t\tcontinue\n\t\t\t\t}\n"}}, "C01.26", "wave 8"},
+	{"C12", "empty-argument-dropped", "internal/ccdirectives.go", [][2]string{{"\t\t\t\tvalue = textproto.TrimString(value)\n", "\t\t\t\tvalue = textproto.TrimString(value)\n\t\t\t\tif value == \"\" {\n\t\t\t\t\tcontinue\n\t\t\t\t}\n"}}, "C12.20", "wave 8"},
+	{"C02", "expires-found-is-valid", "internal/entry.go", [][2]string{{"\texpires, err := parseHTTPDateCompat(expiresStr)\n", "\tfound = valid\n\texpires, err := parseHTTPDateCompat(expiresStr)\n"}}, "C02.16", "wave 8"},
+	{"C03", "trailing-dot-trimmed", "internal/helpers.go", [][2]string{{"\tif strings.HasPrefix(host, \"[\") && strings.HasSuffix(host, \"]\") {\n\t\thost = host[1 : len(host)-1]\n\t}\n", "\tif strings.HasPrefix(host, \"[\") && strings.HasSuffix(host, \"]\") {\n\t\thost = host[1 : len(host)-1]\n\t}\n\thost = strings.TrimSuffix(host, \".\")\n"}}, "C03.14", "wave 8"},
+	{"C05", "merge-deletes-warning", "internal/helpers.go", [][2]string{{"\tstoredResp.Header.Del(\"Age\")\n", "\tstoredResp.Header.Del(\"Age\")\n\tstoredResp.Header.Del(\"Warning\")\n"}}, "C05.17", "wave 8"},
+	{"C05", "end-to-end-field-in-hop-table", "internal/helpers.go", [][2]string{{"\t\t\"Proxy-Authorization\":       {},\n", "\t\t\"Proxy-Authorization\":       {},\n\t\t\"Authentication-Info\":       {},\n"}}, "C05.18", "wave 8"},
+	{"C07", "invalidation-needs-live-context", "roundtripper.go", [][2]string{{"\tif internal.IsNonErrorStatus(resp.StatusCode) {\n\t\trefs, _ := r.cache.GetRefs(urlKey)", "\tif internal.IsNonErrorStatus(resp.StatusCode) && req.Context().Err() == nil {\n\t\trefs, _ := r.cache.GetRefs(urlKey)"}}, "C07.16", "wave 8"},
+	{"C08", "memcache-overwrites-in-place", "store/memcache/memcache.go", [][2]string{{"\tcp := make([]byte, len(value))\n\tcopy(cp, value)\n\tc.store[key] = cp\n", "\tif old, ok := c.store[key]; ok && len(value) <= len(old) {\n\t\tcopy(old, value)\n\t\treturn nil\n\t}\n\tcp := make([]byte, len(value))\n\tcopy(cp, value)\n\tc.store[key] = cp\n"}}, "C08.19", "wave 8"},
+	{"C14", "memcache-overwrites-in-place", "store/memcache/memcache.go", [][2]string{{"\tcp := make([]byte, len(value))\n\tcopy(cp, value)\n\tc.store[key] = cp\n", "\tif old, ok := c.store[key]; ok && len(value) <= len(old) {\n\t\tcopy(old, value)\n\t\treturn nil\n\t}\n\tcp := make([]byte, len(value))\n\tcopy(cp, value)\n\tc.store[key] = cp\n"}}, "C14.25", "wave 8"},
+	{"C10", "timeout-only-raised", "store/fscache/fscache.go", [][2]string{{"\tc.timeout = cmp.Or(c.timeout, defaultTimeout)\n", "\tc.timeout = max(c.timeout, defaultTimeout)\n"}}, "C10.27", "wave 8"},
+	{"C10", "partial-index-with-error", "internal/responsecache.go", [][2]string{{"\tif unmarshalErr := json.Unmarshal(data, &refs); unmarshalErr != nil {\n\t\treturn nil, newCacheError(", "\tif unmarshalErr := json.Unmarshal(data, &refs); unmarshalErr != nil {\n\t\treturn refs, newCacheError("}}, "C10.28", "wave 8"},
+	{"C12", "overflow-capped-below-the-bound", "internal/ccdirectives.go", [][2]string{{"\t\tseconds = maxDeltaSeconds\n", "\t\tseconds = 1<<31 - 1\n"}}, "C12.21", "wave 8"},
+	{"C12", "list-split-on-commas", "internal/normalization.go", [][2]string{{"\tparts := slices.Sorted(TrimmedCSVSeq(value))\n", "\tparts := strings.Split(value, \",\")\n\tslices.Sort(parts)\n"}}, "C12.22", "wave 8"},
+	{"C15", "abandon-trylock", "store/fscache/fscache.go", [][2]string{{"func (g *abandonGate) abandon() {\n\tg.mu.Lock()\n", "func (g *abandonGate) abandon() {\n\tif !g.mu.TryLock() {\n\t\treturn\n\t}\n"}}, "C15.11", "wave 8"},
 	{"C02", "strip-by-map-key-trailer-by-name", "roundtripper.go", [][2]string{{"\t\t\tstored.Data.Header.Del(field)\n\t\t\tstored.Data.Trailer.Del(field) // a field sent as a trailer is replayed as one\n\t\t}\n\t}\n\tinternal.SetAgeHeader(stored.Data, r.clock, freshness.Age)\n\tmisc :=", "\t\t\tdelete(stored.Data.Header, field)\n\t\t\tstored.Data.Trailer.Del(field) // a field sent as a trailer is replayed as one\n\t\t}\n\t}\n\tinternal.SetAgeHeader(stored.Data, r.clock, freshness.Age)\n\tmisc :="}}, "C02.4", "the header section is stripped by map key (as spelled) while the trailer is stripped canonically"},
 	{"C12", "strip-by-map-key-trailer-by-name", "roundtripper.go", [][2]string{{"\t\t\tstored.Data.Header.Del(field)\n\t\t\tstored.Data.Trailer.Del(field) // a field sent as a trailer is replayed as one\n\t\t}\n\t}\n\tinternal.SetAgeHeader(stored.Data, r.clock, freshness.Age)\n\tmisc :=", "\t\t\tdelete(stored.Data.Header, field)\n\t\t\tstored.Data.Trailer.Del(field) // a field sent as a trailer is replayed as one\n\t\t}\n\t}\n\tinternal.SetAgeHeader(stored.Data, r.clock, freshness.Age)\n\tmisc :="}}, "C12.17", "the header section is stripped by map key (as spelled) while the trailer is stripped canonically"},
 	{"C01", "max-stale-zero-is-unlimited", "internal/freshness.go", [][2]string{{"\t\tif reqMaxStaleStr == \"\" {\n\t\t\tmaxStale = maxDuration // accept any staleness\n\t\t} else if reqMaxStale, valid := reqMaxStaleStr.Value(); valid && reqMaxStale >= 0 {\n\t\t\tmaxStale = reqMaxStale\n\t\t}\n", "\t\treqMaxStale, _ := reqMaxStaleStr.Value()\n\t\tmaxStale = cmp.Or(max(reqMaxStale, 0), maxDuration)\n"}}, "C01.24", "wave 7"},
